@@ -117,14 +117,18 @@ def ratioGE (p t : Int) : Bool :=
 def ratioLT (p t : Int) : Bool :=
   if t = 0 then decide (p < 0) else decide ((Generated.BridgeConsts.consensusDen : Int) * p < (Generated.BridgeConsts.consensusNum : Int) * t)
 
-/-- `processCompletion` -/
-def processCompletion (ord : List Group → List Group) (vals : List Validator) (wl : List Nat) (p : Prophecy) : Prophecy :=
-  let t := findHighest vals wl (ord p.groups)
+/-- `processCompletion`, with the claim groups in the order `gs` in which the map range yields them -/
+def processCompletionOn (gs : List Group) (vals : List Validator) (wl : List Nat) (p : Prophecy) : Prophecy :=
+  let t := findHighest vals wl gs
   let total : Int := totalPower vals wl
   let possible : Int := t.bestPower + (total - t.totalClaims)
   if ratioGE t.bestPower total then { p with status := .success, final := t.best }
   else if ratioLT possible total then { p with status := .failed }
   else p
+
+/-- `processCompletion`: `ord` is the iteration order of the Go map `ClaimValidators` -/
+def processCompletion (ord : List Group → List Group) (vals : List Validator) (wl : List Nat) (p : Prophecy) : Prophecy :=
+  processCompletionOn (ord p.groups) vals wl p
 
 /-- `prophecy.ValidatorClaims[v] != ""` -/
 def hasClaim (p : Prophecy) (v : Nat) : Bool :=
